@@ -4,6 +4,7 @@ import (
 	"fmt"
 	"go/token"
 	"go/types"
+	"regexp"
 	"sort"
 	"strings"
 
@@ -469,7 +470,7 @@ func c17window(c *eng.Ctx, F *c17fields, w c17win) (f *ssa.Function, ver ssa.Val
 	if f == nil {
 		return nil, nil
 	}
-	calls := eng.Calls(f, w.sinkPat)
+	calls := c17calls(f, w.sinkPat)
 	// a fetch made through a forwarding closure literal whose version is a
 	// variable it captured from f: the call of the closure in f is the fetch
 	// site, its version the captured variable (a memory cell of f)
@@ -485,7 +486,7 @@ func c17window(c *eng.Ctx, F *c17fields, w c17win) (f *ssa.Function, ver ssa.Val
 		if fn == nil {
 			continue
 		}
-		for _, k := range eng.Calls(fn, w.sinkPat) {
+		for _, k := range c17calls(fn, w.sinkPat) {
 			if ld, ok := c17strip(c17verArg(k)).(*ssa.UnOp); ok && ld.Op == token.MUL {
 				for i, fv := range fn.FreeVars {
 					if ld.X == ssa.Value(fv) && i < len(mc.Bindings) {
@@ -632,7 +633,7 @@ func c17windows(c *eng.Ctx, F *c17fields) {
 	if f := c.Fn("keysutil.(*Policy).GetKey"); f != nil {
 		c.Clause("R5", "C17.1")
 		var pv []c17pv
-		for _, cl := range eng.Calls(f, c17fetchPat) {
+		for _, cl := range c17calls(f, c17fetchPat) {
 			pv = append(pv, c17pv{"version given to " + eng.CalleeName(cl.Common()), c17verArg(cl), []string{`^param:`}})
 		}
 		if c.Floor(f, "fetches in GetKey", len(pv), 2) {
@@ -691,7 +692,7 @@ func c17provAll(c *eng.Ctx, f *ssa.Function, site string, at ssa.Instruction, ch
 			c.Violation(f, site, at.Pos(), k.what+": value not found", nil)
 			return
 		}
-		ok, bad, all := eng.OriginsMatch(k.v, k.allowed...)
+		ok, bad, all := c17originsMatch(k.v, k.allowed...)
 		if !ok {
 			c.Violation(f, site, at.Pos(), fmt.Sprintf("%s may originate from %s; allowed %v; all origins %v", k.what, bad, k.allowed, all), nil)
 			return
@@ -708,7 +709,7 @@ type c17pv struct {
 }
 
 func c17one(f *ssa.Function, pat string) ssa.CallInstruction {
-	cs := eng.Calls(f, pat)
+	cs := c17calls(f, pat)
 	if len(cs) == 0 {
 		return nil
 	}
@@ -716,10 +717,109 @@ func c17one(f *ssa.Function, pat string) ssa.CallInstruction {
 }
 
 func c17arg(cl ssa.CallInstruction, i int) ssa.Value {
-	if cl == nil || i >= len(cl.Common().Args) {
+	if cl == nil {
 		return nil
 	}
-	return cl.Common().Args[i]
+	a := c17args(cl)
+	if i >= len(a) {
+		return nil
+	}
+	return a[i]
+}
+
+// c17calls: the calls in f whose resolved callee matches pat: direct calls and
+// calls through a bound method value (h := p.HMACKey; h(v)).
+func c17calls(f *ssa.Function, pat string) []ssa.CallInstruction {
+	var out []ssa.CallInstruction
+	for _, nc := range nfCalls(f, pat) {
+		out = append(out, nc.In)
+	}
+	return out
+}
+
+// c17args: the arguments of the call with the receiver first, also when the
+// call goes through a bound method value.
+func c17args(cl ssa.CallInstruction) []ssa.Value { return nfCallOf(cl).Args }
+
+// c17sites: the instructions of f at which a call of pat has certainly
+// happened: such a call itself (direct or through a bound method value), or
+// the call of a closure of f / a helper of the package that performs it on
+// every path. For rules that only need the program point, not the arguments.
+func c17sites(f *ssa.Function, pat string) []ssa.Instruction {
+	return nfAts(nfPlain(nfSites(f, pat)))
+}
+
+// c17originStrings: the origins of v as kind:desc strings, with a call through
+// a bound method value named by its method and the result of a forwarding
+// closure literal resolved to what the closure returns.
+func c17originStrings(v ssa.Value) []string {
+	var out []string
+	seen := map[*ssa.Call]bool{}
+	var walk func(v ssa.Value, d int)
+	walk = func(v ssa.Value, d int) {
+		for _, o := range eng.Origins(v) {
+			if o.Kind == "call" && d < 3 {
+				var call *ssa.Call
+				idx := -1
+				switch x := o.Val.(type) {
+				case *ssa.Call:
+					call = x
+				case *ssa.Extract:
+					call, _ = x.Tuple.(*ssa.Call)
+					idx = x.Index
+				}
+				if call != nil && !call.Call.IsInvoke() {
+					if fn, mc := nfFuncValue(call.Call.Value); fn != nil && mc != nil {
+						if nfIsBoundWrapper(fn) {
+							s := "call:" + strings.TrimSuffix(eng.FuncName(fn), "$bound")
+							if idx >= 0 {
+								s += fmt.Sprintf("#%d", idx)
+							}
+							out = append(out, s)
+							continue
+						}
+						if !seen[call] {
+							seen[call] = true
+							n, i := 0, idx
+							if i < 0 {
+								i = 0
+							}
+							for _, r := range eng.Returns(fn) {
+								if i < len(r.Results) && !eng.AllNilThroughPhi(r.Results[i]) {
+									n++
+									walk(r.Results[i], d+1)
+								}
+							}
+							if n > 0 {
+								continue
+							}
+						}
+					}
+				}
+			}
+			out = append(out, o.Kind+":"+o.Desc)
+		}
+	}
+	walk(v, 0)
+	return out
+}
+
+// c17originsMatch is eng.OriginsMatch over c17originStrings.
+func c17originsMatch(v ssa.Value, allowed ...string) (bool, string, []string) {
+	all := c17originStrings(v)
+	for _, s := range all {
+		ok := false
+		for _, a := range allowed {
+			if m, _ := regexp.MatchString(a, s); m {
+				ok = true
+				break
+			}
+		}
+		if !ok {
+			return false, s, all
+		}
+	}
+	return true, "", all
 }
 
 func c17binding(c *eng.Ctx, F *c17fields) {
@@ -736,7 +836,7 @@ func c17binding(c *eng.Ctx, F *c17fields) {
 		if f == nil {
 			continue
 		}
-		fetch := eng.Calls(f, c17fetchPat)
+		fetch := c17calls(f, c17fetchPat)
 		if len(fetch) == 0 {
 			continue
 		}
@@ -747,7 +847,7 @@ func c17binding(c *eng.Ctx, F *c17fields) {
 		pf, pin := f, in
 		var hcall ssa.CallInstruction
 		if c17one(f, `^strconv\.Atoi$`) == nil {
-			for _, k := range eng.Calls(f, `^keysutil\.`) {
+			for _, k := range c17calls(f, `^keysutil\.`) {
 				fn := k.Common().StaticCallee()
 				if fn == nil || len(fn.Blocks) == 0 || c17one(fn, `^strconv\.Atoi$`) == nil {
 					continue
@@ -805,14 +905,14 @@ func c17binding(c *eng.Ctx, F *c17fields) {
 			c.Clause("R2", "C17.1")
 			if c.Floor(pf, "success returns of the parsing helper", len(okRets), 1) {
 				c.Cut(pf, "version handed back", okRets, eng.G(pf, `^strings\.HasPrefix\(\)$`, true), nil)
-				c.Cut(pf, "version handed back", okRets, eng.GCallOK(pf, `^strconv\.Atoi$`), nil)
+				c.Cut(pf, "version handed back", okRets, nfGCallOK(pf, `^strconv\.Atoi$`), nil)
 			}
 			c.Clause("R5", "C17.1")
 		}
 		// every base64 decoding of a piece of the input decodes the part after the version
 		var pay []c17pv
-		for _, d := range eng.Calls(f, `^\(\*encoding/base64\.Encoding\)\.DecodeString$`) {
-			if ok, _, _ := eng.OriginsMatch(c17arg(d, 1), `^op:strings\.SplitN\(\)`, `^param:`, `^call:strings\.`, `^call:keysutil\.`); ok {
+		for _, d := range c17calls(f, `^\(\*encoding/base64\.Encoding\)\.DecodeString$`) {
+			if ok, _, _ := c17originsMatch(c17arg(d, 1), `^op:strings\.SplitN\(\)`, `^param:`, `^call:strings\.`, `^call:keysutil\.`); ok {
 				pay = append(pay, c17pv{"payload decoded", c17arg(d, 1), []string{payload}})
 			}
 		}
@@ -823,13 +923,13 @@ func c17binding(c *eng.Ctx, F *c17fields) {
 		sinks := instrsOf(fetch)
 		if hcall == nil {
 			c.Cut(f, "key material fetch", sinks, eng.G(f, `^strings\.HasPrefix\(\)$`, true), nil)
-			c.Cut(f, "key material fetch", sinks, eng.GCallOK(f, `^strconv\.Atoi$`), nil)
+			c.Cut(f, "key material fetch", sinks, nfGCallOK(f, `^strconv\.Atoi$`), nil)
 		} else {
-			c.Cut(f, "key material fetch", sinks, eng.GCallOK(f, `^`+quoteRe(eng.CalleeName(hcall.Common()))+`$`), nil)
+			c.Cut(f, "key material fetch", sinks, nfGCallOK(f, `^`+quoteRe(eng.CalleeName(hcall.Common()))+`$`), nil)
 		}
 		// the convergent-version lookup is keyed by the same version
 		c.Clause("R7", "C17.1")
-		for _, cv := range eng.Calls(f, `^keysutil\.\(\*Policy\)\.convergentVersion$`) {
+		for _, cv := range c17calls(f, `^keysutil\.\(\*Policy\)\.convergentVersion$`) {
 			if c17sameVal(f, c17verArg(cv), ver) {
 				c.OK(f, "agree{convergentVersion(ver) uses the fetched version}", cv.Pos(), eng.Expr(ver))
 			} else {
@@ -850,7 +950,7 @@ func c17binding(c *eng.Ctx, F *c17fields) {
 		if f == nil {
 			continue
 		}
-		fetch := eng.Calls(f, c17fetchPat)
+		fetch := c17calls(f, c17fetchPat)
 		if len(fetch) == 0 {
 			continue
 		}
@@ -858,7 +958,7 @@ func c17binding(c *eng.Ctx, F *c17fields) {
 		c.Clause("R7", "C17.1")
 		n := 0
 		for _, p := range h.pats {
-			for _, cl := range eng.Calls(f, p) {
+			for _, cl := range c17calls(f, p) {
 				n++
 				site := "agree{" + strings.TrimPrefix(eng.CalleeName(cl.Common()), "keysutil.(*Policy).") + "(ver) names the version whose key is used}"
 				if c17sameVal(f, c17verArg(cl), ver) {
@@ -987,7 +1087,7 @@ const (
 // f, the callees matching pat that are reachable from the edge [Type == K].
 func c17typeArms(f *ssa.Function, F *c17fields, pat string) map[string][]string {
 	out := map[string][]string{}
-	calls := eng.Calls(f, pat)
+	calls := c17calls(f, pat)
 	for _, cm := range c17cmps(f) {
 		if !cm.eq {
 			continue
@@ -1128,10 +1228,10 @@ func c17aead(c *eng.Ctx, F *c17fields) {
 			n   int
 		}{{enc, keyE, 3}, {dec, keyD, 3}} {
 			var pv []c17pv
-			for _, k := range eng.Calls(h.f, c17ctorPat) {
+			for _, k := range c17calls(h.f, c17ctorPat) {
 				pv = append(pv, c17pv{eng.CalleeName(k.Common()) + " key", c17arg(k, 0), []string{`^param:` + h.key + `$`}})
 			}
-			for _, k := range eng.Calls(h.f, `^crypto/cipher\.NewGCM(WithRandomNonce)?$`) {
+			for _, k := range c17calls(h.f, `^crypto/cipher\.NewGCM(WithRandomNonce)?$`) {
 				pv = append(pv, c17pv{eng.CalleeName(k.Common()) + " block", c17arg(k, 0), []string{`^call:crypto/aes\.NewCipher#0$`}})
 			}
 			if c.Floor(h.f, "AEAD constructors", len(pv), h.n) {
@@ -1157,8 +1257,8 @@ func c17aead(c *eng.Ctx, F *c17fields) {
 		// convergent mode never draws randomness for the nonce
 		c.Clause("R2", "C17.2")
 		nonConv := eng.G(enc, `^&`+optsE+`\.Convergent$`, false)
-		c.Cut(enc, "random nonce (uuid.GenerateRandomBytes)", instrsOf(eng.Calls(enc, `^github\.com/hashicorp/go-uuid\.GenerateRandomBytes$`)), nonConv, nil)
-		c.Cut(enc, "random-nonce AEAD (cipher.NewGCMWithRandomNonce)", instrsOf(eng.Calls(enc, `^crypto/cipher\.NewGCMWithRandomNonce$`)), nonConv, nil)
+		c.Cut(enc, "random nonce (uuid.GenerateRandomBytes)", c17sites(enc, `^github\.com/hashicorp/go-uuid\.GenerateRandomBytes$`), nonConv, nil)
+		c.Cut(enc, "random-nonce AEAD (cipher.NewGCMWithRandomNonce)", c17sites(enc, `^crypto/cipher\.NewGCMWithRandomNonce$`), nonConv, nil)
 		// ... and derives it from the plaintext under the HMAC key it was given
 		hn, hw := c17one(enc, `^crypto/hmac\.New$`), c17one(enc, `^<hash\.Hash>\.Write$`)
 		if hn == nil || hw == nil || seal == nil {
@@ -1245,7 +1345,7 @@ func c17aead(c *eng.Ctx, F *c17fields) {
 		}
 		// the factory's error is not dropped
 		c.Clause("R11", "C17.2")
-		gads := eng.Calls(f, `^<keysutil\.AssociatedDataFactory>\.GetAssociatedData$`)
+		gads := c17calls(f, `^<keysutil\.AssociatedDataFactory>\.GetAssociatedData$`)
 		c.Floor(f, "GetAssociatedData calls", len(gads), 2)
 		for _, g := range gads {
 			c.ErrChecked(f, g)
@@ -1327,7 +1427,7 @@ func c17aead(c *eng.Ctx, F *c17fields) {
 	if f := c.Fn("keysutil.(*Policy).EncryptWithFactory"); f != nil && len(f.Params) >= 4 {
 		c.Clause("R2", "C17.2")
 		nn := eng.VarName(f.Params[3])
-		c.Cut(f, "SymmetricEncryptRaw", instrsOf(eng.Calls(f, `^keysutil\.\(\*Policy\)\.SymmetricEncryptRaw$`)),
+		c.Cut(f, "SymmetricEncryptRaw", c17sites(f, `^keysutil\.\(\*Policy\)\.SymmetricEncryptRaw$`),
 			eng.Or(eng.G(f, `^0 < len\(`+nn+`\)$`, false), eng.G(f, `^keysutil\.\(\*Policy\)\.convergentVersion\(\) == 1$`, true)), nil)
 	}
 
@@ -1358,7 +1458,7 @@ func c17aead(c *eng.Ctx, F *c17fields) {
 				}
 			}
 		}
-		for _, ap := range eng.Calls(f, `^append$`) {
+		for _, ap := range c17calls(f, `^append$`) {
 			// append(factories, AssocDataFactory{...}): the variadic slot holds the factory literal
 			sl, ok := c17arg(ap, 1).(*ssa.Slice)
 			if !ok {
@@ -1457,7 +1557,7 @@ func c17rollbackChecks(c *eng.Ctx, f *ssa.Function, clause string, fields []*typ
 			// map snapshot: a fresh map filled by maps.Copy(snapshot, p.<field>)
 			cp := false
 			if _, isMap := s.Val.(*ssa.MakeMap); isMap {
-				for _, k := range eng.Calls(f, `^maps\.Copy\[`) {
+				for _, k := range c17calls(f, `^maps\.Copy\[`) {
 					if c17loadOf(fv)(c17arg(k, 1)) {
 						if ld, ok := c17arg(k, 0).(*ssa.UnOp); ok && ld.X == ssa.Value(a) {
 							cp = true
@@ -1492,20 +1592,20 @@ func c17durable(c *eng.Ctx, F *c17fields) {
 	persistPat := `^keysutil\.\(\*Policy\)\.Persist$`
 	// ---- Rotate
 	if f := c.Fn("keysutil.(*Policy).Rotate"); f != nil {
-		rim := instrsOf(eng.Calls(f, `^keysutil\.\(\*Policy\)\.RotateInMemory$`))
-		per := instrsOf(eng.Calls(f, persistPat))
+		rim := c17sites(f, `^keysutil\.\(\*Policy\)\.RotateInMemory$`)
+		per := instrsOf(c17calls(f, persistPat))
 		if c.Floor(f, "RotateInMemory call", len(rim), 1) && c.Floor(f, "Persist call", len(per), 1) {
 			c17rollbackChecks(c, f, "C17.3", []*types.Var{F.latest, F.minDec, F.keys}, append(append([]ssa.Instruction{}, rim...), per...), "RotateInMemory / Persist", nil)
 			// after the in-memory rotation the only outcome is Persist's
 			c.Clause("R5", "C17.3")
 			ok := true
 			n := 0
-			for _, cl := range eng.Calls(f, `^keysutil\.\(\*Policy\)\.RotateInMemory$`) {
+			for _, cl := range c17calls(f, `^keysutil\.\(\*Policy\)\.RotateInMemory$`) {
 				for _, r := range eng.ReturnsFrom(f, eng.CallOKEdges(cl), nil, nil) {
 					vals, _, _ := eng.ReturnVals(r, 0)
 					for _, v := range vals {
 						n++
-						if m, bad, _ := eng.OriginsMatch(v, `^call:keysutil\.\(\*Policy\)\.Persist$`); !m {
+						if m, bad, _ := c17originsMatch(v, `^call:keysutil\.\(\*Policy\)\.Persist$`); !m {
 							ok = false
 							c.Violation(f, "after{RotateInMemory ok} result = Persist's result", r.Pos(), "Rotate can return "+bad+" after the in-memory rotation succeeded: success would not imply durability", nil)
 						}
@@ -1568,14 +1668,14 @@ func c17durable(c *eng.Ctx, F *c17fields) {
 	}
 	// ---- Persist
 	if f := c.Fn("keysutil.(*Policy).Persist"); f != nil {
-		ha := instrsOf(eng.Calls(f, `^keysutil\.\(\*Policy\)\.handleArchiving$`))
-		put := instrsOf(eng.Calls(f, `^<logical\.Storage>\.Put$`))
+		ha := c17sites(f, `^keysutil\.\(\*Policy\)\.handleArchiving$`)
+		put := instrsOf(c17calls(f, `^<logical\.Storage>\.Put$`))
 		if c.Floor(f, "handleArchiving call", len(ha), 1) && c.Floor(f, "storage.Put", len(put), 1) {
 			c17rollbackChecks(c, f, "C17.3", []*types.Var{F.archiveVer, F.keys}, ha, "handleArchiving", nil)
 			c.Clause("R2", "C17.3")
-			c.Cut(f, "storage.Put(policy)", put, eng.GCallOK(f, `^keysutil\.\(\*Policy\)\.handleArchiving$`), nil)
+			c.Cut(f, "storage.Put(policy)", put, nfGCallOK(f, `^keysutil\.\(\*Policy\)\.handleArchiving$`), nil)
 			c.Cut(f, "storage.Put(policy)", put, eng.G(f, `^\(\*sync/atomic\.Bool\)\.Load\(\)$`, false), nil)
-			c.Cut(f, "nil return", eng.SuccessReturns(f, 0), eng.GCallOK(f, `^<logical\.Storage>\.Put$`), nil)
+			c.Cut(f, "nil return", eng.SuccessReturns(f, 0), nfGCallOK(f, `^<logical\.Storage>\.Put$`), nil)
 			c.Clause("R5", "C17.3")
 			var pv []c17pv
 			ent := c17arg(put[0].(ssa.CallInstruction), 1)
@@ -1601,7 +1701,7 @@ func c17durable(c *eng.Ctx, F *c17fields) {
 	}
 	// ---- handleArchiving
 	if f := c.Fn("keysutil.(*Policy).handleArchiving"); f != nil {
-		sa := instrsOf(eng.Calls(f, `^keysutil\.\(\*Policy\)\.storeArchive$`))
+		sa := c17sites(f, `^keysutil\.\(\*Policy\)\.storeArchive$`)
 		if c.Floor(f, "storeArchive call", len(sa), 1) {
 			sinks := append(append([]ssa.Instruction{}, sa...), eng.SuccessReturns(f, 0)...)
 			what := "archive write / success"
@@ -1613,16 +1713,16 @@ func c17durable(c *eng.Ctx, F *c17fields) {
 			c.Cut(f, what, sinks, c17guard("ArchiveVersion <= LatestVersion", c17rel(f, false, ld(F.latest), ld(F.archiveVer), false)), nil)
 			c.Cut(f, what, sinks, c17guard("MinEncryptionVersion == 0 OR MinEncryptionVersion >= MinDecryptionVersion",
 				c17rel(f, false, c17const("0"), ld(F.minEnc), false), c17rel(f, false, ld(F.minEnc), ld(F.minDec), false)), nil)
-			c.Cut(f, what, sinks, eng.GCallOK(f, `^keysutil\.\(\*Policy\)\.LoadArchive$`), nil)
+			c.Cut(f, what, sinks, nfGCallOK(f, `^keysutil\.\(\*Policy\)\.LoadArchive$`), nil)
 			// the live map is trimmed only once the archive is safe
 			var dels []ssa.Instruction
-			for _, d := range eng.Calls(f, `^delete$`) {
+			for _, d := range c17calls(f, `^delete$`) {
 				if c17loadOf(F.keys)(c17arg(d, 0)) {
 					dels = append(dels, d)
 				}
 			}
 			if c.Floor(f, "delete(p.Keys, ...)", len(dels), 1) {
-				c.Cut(f, "delete(p.Keys, old version)", dels, eng.GCallOK(f, `^keysutil\.\(\*Policy\)\.storeArchive$`), nil)
+				c.Cut(f, "delete(p.Keys, old version)", dels, nfGCallOK(f, `^keysutil\.\(\*Policy\)\.storeArchive$`), nil)
 			}
 			// deleted versions are below MinDecryptionVersion
 			c.Cut(f, "delete(p.Keys, old version)", dels, c17guard("i < MinDecryptionVersion", c17rel(f, false, func(ssa.Value) bool { return true }, ld(F.minDec), true)), nil)
@@ -1647,12 +1747,12 @@ func c17durable(c *eng.Ctx, F *c17fields) {
 		for _, fv := range []*types.Var{F.latest, F.minDec} {
 			muts = append(muts, instrsOf(c17fieldStores(f, fv))...)
 		}
-		muts = append(muts, instrsOf(eng.Calls(f, persistPat))...)
-		muts = append(muts, instrsOf(eng.Calls(f, `^keysutil\.\(\*Policy\)\.MigrateKeyToKeysMap$`))...)
+		muts = append(muts, instrsOf(c17calls(f, persistPat))...)
+		muts = append(muts, c17sites(f, `^keysutil\.\(\*Policy\)\.MigrateKeyToKeysMap$`)...)
 		if c.Floor(f, "mutations", len(muts), 4) {
 			c17rollbackChecks(c, f, "C17.3", []*types.Var{F.latest, F.minDec, F.keys}, muts, "the first mutation", nil)
 			c.Clause("R2", "C17.3")
-			pOK := eng.GCallOK(f, persistPat)
+			pOK := nfGCallOK(f, persistPat)
 			c.Cut(f, "nil return", eng.SuccessReturns(f, 0), eng.Or(eng.Guard{Desc: pOK.Desc, Edges: pOK.Edges}, c17guard("nothing to persist (boolean flag false)", c17boolPhiEdges(f, false))), nil)
 		}
 	}
@@ -1661,8 +1761,8 @@ func c17durable(c *eng.Ctx, F *c17fields) {
 	// live keys when min_decryption_version is lowered again (seed C17-b)
 	if f := c.Fn("keysutil.(*LockManager).RestorePolicy"); f != nil {
 		c.Clause("R4", "C17.3")
-		sa := instrsOf(eng.Calls(f, `^keysutil\.\(\*Policy\)\.storeArchive$`))
-		ps := instrsOf(eng.Calls(f, persistPat))
+		sa := c17sites(f, `^keysutil\.\(\*Policy\)\.storeArchive$`)
+		ps := instrsOf(c17calls(f, persistPat))
 		if c.Floor(f, "storeArchive in RestorePolicy", len(sa), 1) && c.Floor(f, "Persist in RestorePolicy", len(ps), 1) {
 			has := eng.CondEdges(f, `\.ArchivedKeys == nil$`, false)
 			site := "on{backup carries archived keys} the archive is restored before the policy is persisted"
@@ -1684,22 +1784,22 @@ func c17durable(c *eng.Ctx, F *c17fields) {
 				}
 			}
 			c.Clause("R2", "C17.3")
-			c.Cut(f, "restored policy persisted", ps, eng.Or(eng.GCallOK(f, `^keysutil\.\(\*Policy\)\.storeArchive$`), eng.G(f, `\.ArchivedKeys == nil$`, true)), nil)
+			c.Cut(f, "restored policy persisted", ps, eng.Or(nfGCallOK(f, `^keysutil\.\(\*Policy\)\.storeArchive$`), eng.G(f, `\.ArchivedKeys == nil$`, true)), nil)
 		}
 	}
 	if f := c.Fn("keysutil.(*Policy).Backup"); f != nil {
 		c.Clause("R4", "C17.3")
-		la := eng.Calls(f, `^keysutil\.\(\*Policy\)\.LoadArchive$`)
+		la := c17calls(f, `^keysutil\.\(\*Policy\)\.LoadArchive$`)
 		c.Floor(f, "backup reads the archive", len(la), 1)
 	}
 	// ---- every method that bumps the version and persists has the rollback
 	c.Clause("R4", "C17.3")
 	n := 0
 	for _, fn := range c.P.Funcs {
-		if fn.Parent() != nil || !eng.InPkg(fn, "keysutil") || len(eng.Calls(fn, persistPat)) == 0 {
+		if fn.Parent() != nil || !eng.InPkg(fn, "keysutil") || len(c17calls(fn, persistPat)) == 0 {
 			continue
 		}
-		bumps := len(eng.Calls(fn, `^keysutil\.\(\*Policy\)\.RotateInMemory$`)) > 0
+		bumps := len(c17calls(fn, `^keysutil\.\(\*Policy\)\.RotateInMemory$`)) > 0
 		for _, st := range c17fieldStores(fn, F.latest) {
 			if _, isLoad := st.Val.(*ssa.UnOp); !isLoad {
 				bumps = true
@@ -1731,7 +1831,7 @@ func c17durable(c *eng.Ctx, F *c17fields) {
 			continue
 		}
 		c.Clause("R4", "C17.3")
-		ends := eng.Calls(f, `^logical\.EndTxStorage$`)
+		ends := c17calls(f, `^logical\.EndTxStorage$`)
 		if !c.Floor(f, "EndTxStorage call", len(ends), 1) {
 			continue
 		}
@@ -1740,7 +1840,7 @@ func c17durable(c *eng.Ctx, F *c17fields) {
 			fe = append(fe, eng.CallFailEdges(e)...)
 		}
 		var cleanup []ssa.Instruction
-		cleanup = append(cleanup, instrsOf(eng.Calls(f, `InvalidatePolicy$`))...)
+		cleanup = append(cleanup, c17sites(f, `InvalidatePolicy$`)...)
 		for _, fv := range []*types.Var{F.latest, F.minDec, F.minEnc, F.minAvail, F.keys} {
 			cleanup = append(cleanup, instrsOf(c17fieldStores(f, fv))...)
 		}
@@ -1881,7 +1981,7 @@ func c17joinArgs(j ssa.CallInstruction) string {
 func c17config(c *eng.Ctx, F *c17fields) {
 	ld := c17loadOf
 	if f := c.Fn("transit.(*backend).pathKeysConfigWrite"); f != nil {
-		per := instrsOf(eng.Calls(f, `^keysutil\.\(\*Policy\)\.Persist$`))
+		per := c17sites(f, `^keysutil\.\(\*Policy\)\.Persist$`)
 		c.Floor(f, "Persist call", len(per), 1)
 		c.Clause("R2", "C17.4")
 		for _, fv := range []*types.Var{F.minDec, F.minEnc} {
@@ -1946,7 +2046,7 @@ func c17config(c *eng.Ctx, F *c17fields) {
 			}
 		}
 		if c.Floor(f, "success returns after Persist", len(okRets), 1) {
-			c.Cut(f, "success after Persist", okRets, eng.GCallOK(f, `^logical\.EndTxStorage$`), nil)
+			c.Cut(f, "success after Persist", okRets, nfGCallOK(f, `^logical\.EndTxStorage$`), nil)
 		}
 	}
 	// trim
@@ -1966,7 +2066,7 @@ func c17config(c *eng.Ctx, F *c17fields) {
 			c.Cut(f, what, s, c17guard("requested >= current MinAvailableVersion", c17rel(f, false, x, ld(F.minAvail), false)), nil)
 			c.Cut(f, what, s, c17guard("requested != 0", c17rel(f, true, x, c17const("0"), false)), nil)
 			c.Clause("R4", "C17.4")
-			for _, p := range eng.Calls(f, `^keysutil\.\(\*Policy\)\.Persist$`) {
+			for _, p := range c17calls(f, `^keysutil\.\(\*Policy\)\.Persist$`) {
 				var restores []ssa.Instruction
 				for _, r := range c17fieldStores(f, F.minAvail) {
 					if ld(F.minAvail)(r.Val) {
@@ -2029,7 +2129,7 @@ func c17shape(v ssa.Value, fv *types.Var, F *c17fields) string {
 			return "len(Keys)"
 		}
 	case *ssa.TypeAssert:
-		if ok, _, _ := eng.OriginsMatch(x.X, `^call:framework\.\(\*FieldData\)\.Get`); ok {
+		if ok, _, _ := c17originsMatch(x.X, `^call:framework\.\(\*FieldData\)\.Get`); ok {
 			return "request"
 		}
 	case *ssa.Phi:
